@@ -51,6 +51,11 @@ CHECKS = {
             "Call alphabet of 41 calls: 17 base calls (successful parse, failure midway through an anchored node, failure inside an RcAnchor context, failure inside an RcRecursive in-progress context, budget breach, alias limit, missing field, a visitor that panics mid-document (caught), a streaming iterator advanced once and dropped, from_multiple failing on its second document, serialization with shared anchors, serialization into a failing writer, closure helper returning early, Rc sharing / weak / recursive parses, and two public probes that read the thread-local error-location fallback and the anchor-context stack) plus 3 outer parses x (no nested call + 7 calls nested inside a user Deserialize impl between an anchor definition and its alias). All histories of length <= 2 (quick) / <= 3 (thorough, 70k histories) are replayed on fresh OS threads; the observation of the last call (value, error variant, line/column, message, pointer-sharing) must equal its observation as first call on a fresh thread; nested calls must leave the outer result unchanged and return what they return alone. Run twice, state counts must agree.",
             "Trusted: a fresh OS thread has clean thread-locals; the crate has no process-global mutable state (grep in DESIGN.md §1: only two thread_local cells are mutable).",
             "DESIGN.md §3 C15"),
+    "C16": ("model_checking",
+            "bounded-exhaustive enumeration of small documents x layouts, location-arithmetic reference from the generator's position table; every node read through Spanned, every leaf in turn turned into an error",
+            "Every tree up to the node bound (quick 4, thorough 5) over ten leaf forms (plain, 2- and 4-byte characters, double / single quoted with escapes, literal block, integers, anchored scalars with a non-ASCII anchor name, aliases) under 36 layouts (LF | CRLF | CR) x (indent 1,2,3) x (comments before/after nodes) x (wide spacing), block and flow. Each document is read into a tree whose every leaf, item, key and value is Spanned: every referenced/defined location must lie inside the input with line, column, character offset and byte offset denoting the same position (recomputed from the text), must equal the generator's position of that node (alias: use site = the alias token, definition site = the anchored node), and for scalars the byte range must be exactly the node's source token. Then every value leaf in turn is replaced by a non-integer against a typed target: the error location must be that node's position; every tree with an alias of an anchored scalar is typed so that the alias position fails: Error::locations() must be (alias token, anchored node). Hand-built families: error through an alias in mapping-value position, values reached through a merge (use site = the merge entry, definition site = the anchored entry), all under every layout.",
+            "Trusted: saphyr-parser events (generator self-check). Conventions: a node's position is where its content token starts (after anchor/tag); block scalars (|, >) are only checked for consistency because the parser places them at their first content line; merged keys are checked for consistency and definition site only.",
+            "DESIGN.md §3 C16"),
     "C12": ("model_checking",
             "bounded-exhaustive enumeration of scalar values x positions x serializer option vectors, identity round-trip oracle on the real serializer and deserializer",
             "All strings up to the length bound over a 52-symbol adversarial alphabet plus 150 look-alike words, in 12 positions (root, sequence item, nested item, map value/key, flow item/value/key, struct field, newtype/tuple variant payload, map inside sequence) under every combination of quote_all, yaml_12, prefer_block_scalars, compact_list_indent, tagged_enums x indent steps x two fold widths; all integer boundaries of every width; a complete f32 sub-lattice (thorough: all 2^32 patterns) and an f64 boundary lattice; chars, unit, options, byte arrays. Each value is serialized by the real serializer, must scan as exactly one document in saphyr-parser and must read back as the identical value; emitted floats must match the YAML float grammar.",
